@@ -23,7 +23,14 @@ def fresh():
 
 
 def main():
-    ids = sys.argv[1:] or sorted(os.listdir(SRC))
+    global SRC
+    args = sys.argv[1:]
+    offset = 0
+    if "--src" in args:
+        i = args.index("--src"); SRC = args[i + 1]; del args[i:i + 2]
+    if "--offset" in args:
+        i = args.index("--offset"); offset = int(args[i + 1]); del args[i:i + 2]
+    ids = args or sorted(os.listdir(SRC))
     fresh()
     head = sh("git -C /repo log --format=%h -1").stdout.strip()
     report = []
@@ -54,7 +61,7 @@ def main():
             ok = base.returncode == 0 and clean_demo == 0 and mut_demo != 0
             status = "OK" if ok else "REJECT(baseline=%d clean_demo=%d mutant_demo=%d)" % (base.returncode, clean_demo, mut_demo)
             if ok:
-                out = os.path.join(SEEDED, "%s-%d" % (pid, k))
+                out = os.path.join(SEEDED, "%s-%d" % (pid, k + offset))
                 os.makedirs(out, exist_ok=True)
                 sh("git diff --binary > %s" % os.path.join(out, "patch.diff"), cwd=WT)   # bytes: sources are CRLF
                 shutil.copy(demo, os.path.join(out, "demo.py"))
@@ -66,7 +73,7 @@ def main():
                 if os.path.exists(notes):
                     first = " ".join(open(notes).read().split())[:700]
                 meta.update({
-                    "property": pid, "mutant": k, "source": "independent sub-agent given only the property text and a scratch worktree",
+                    "property": pid, "mutant": k + offset, "round": 1 if offset == 0 else 2, "source": "independent sub-agent given only the property text and a scratch worktree",
                     "applies_to_repo_head": head, "applied_with": how, "ported_to_fixed_tree": os.path.exists(ported),
                     "what_it_needs_to_manifest": first,
                     "confirmed": {"pinned_suite_with_change": base.stdout.strip().splitlines()[0],
